@@ -201,13 +201,15 @@ func (r *TypeRegistry) Convert(typ schema.Type) (*Type, error) {
 		if !field.IsValid() || field.Kind() == reflect.Ptr && field.IsNil() {
 			continue
 		}
+		// A non-nil pointer holds an explicit value, also if it is zero (e.g. a time precision of 0).
+		explicit := field.Kind() == reflect.Ptr
 		if field = reflect.Indirect(field); field.Kind() != attr.Kind {
 			return nil, errors.New("incompatible kinds on typespec attr and typefield")
 		}
 		switch attr.Kind {
 		case reflect.Int, reflect.Int64:
 			v := int(field.Int())
-			if v == 0 && len(s.Attrs) == 0 {
+			if v == 0 && len(s.Attrs) == 0 && !explicit {
 				break
 			}
 			s.Attrs = append([]*Attr{IntAttr(attr.Name, v)}, s.Attrs...)
